@@ -352,6 +352,18 @@ def r06_9(ctx, rep):
     module_state_free(ctx, rep, "R06.9", "src/pymoca/tree.py", "the flattening passes")
 
 
+@SPEC.rule(
+    "R06.10",
+    "the backends work on a copy, not on pieces: generate() / flatten_class() / translate() hand the caller's tree — and anything taken out "
+    "of it (its classes, their symbols) — only to flatten() and copy.deepcopy(); adopting the caller's classes into a private root re-parents "
+    "them, and every later deepcopy of the caller's tree then resolves names through that foreign root",
+)
+def r06_10(ctx, rep):
+    from ..engine import run_as
+    from .c05 import r05_3
+    run_as(r05_3, "R06.10", ctx, rep)
+
+
 # -- seeded variants ---------------------------------------------------------
 from ._mut import delete_stmt_where, find_def, replace_in_func  # noqa: E402
 
